@@ -177,15 +177,6 @@ Fixpoint border_fuel (fuel : nat) (es : list (value * value)) (n : Z) : Z :=
   end.
 Definition border (es : list (value * value)) : Z := border_fuel (List.length es) es 0.
 
-(** lexicographic order on byte strings (C locale) *)
-Fixpoint bytes_ltb (a b : bytes) : bool :=
-  match a, b with
-  | [], [] => false
-  | [], _ :: _ => true
-  | _ :: _, [] => false
-  | x :: a', y :: b' => if x <? y then true else if y <? x then false else bytes_ltb a' b'
-  end.
-Definition bytes_leb (a b : bytes) : bool := negb (bytes_ltb b a).
 
 (** number value of a literal (darklua [NumberExpression::compute_value]) *)
 Definition number_value (n : number) : f64 :=
